@@ -221,7 +221,7 @@ func classifyRead(c ReadCase) (bool, []string) {
 func TestConfineRead(t *testing.T) {
 	pbt.Run(t, pbt.Spec[ReadCase]{
 		ID: "C14", Name: "confine-read", Gen: genRead, Run: runRead, Classify: classifyRead,
-		Quick: 250, Thorough: 900,
+		Quick: 200, Thorough: 900,
 	})
 }
 
@@ -506,6 +506,6 @@ func classifyWrite(c WriteCase) (bool, []string) {
 func TestConfineWrite(t *testing.T) {
 	pbt.Run(t, pbt.Spec[WriteCase]{
 		ID: "C14", Name: "confine-write", Gen: genWrite, Run: runWrite, Classify: classifyWrite,
-		Quick: 400, Thorough: 1500,
+		Quick: 300, Thorough: 1500,
 	})
 }
